@@ -7,6 +7,7 @@ import (
 
 	"stfsmc/engines"
 	"stfsmc/ops"
+	"stfsmc/pool"
 	"stfsmc/rig"
 )
 
@@ -117,6 +118,12 @@ func runCheck(prop, tier string, seed int64, workers int) int {
 		fmt.Fprintln(os.Stderr, err)
 		return 2
 	}
+	if prop == "C10" {
+		return runC10(rep, p, tier)
+	}
+	if prop == "C06" || prop == "C16" {
+		return runE2(rep, p, prop, tier)
+	}
 	specs := e1Specs(prop, tier)
 	if specs == nil {
 		fmt.Fprintln(os.Stderr, "no check defined for", prop)
@@ -154,5 +161,120 @@ func runCheck(prop, tier string, seed int64, workers int) int {
 	rep.Coverage["rule"] = "breadth-first search over call histories; every transition = one fresh real STFS stack replaying the history under the cooperative scheduler, judged by the property's oracle in lock-step with the reference model; states merged by (model state, live index rows incl. tombstones with ranked positions, rebuilt rows, tail alignment)"
 	rep.Assumptions = []string{"tape = regular file (no tape drive ioctls)", "SQLite and database/sql trusted", "names/contents from the stated alphabets only"}
 	_ = ops.Op{}
+	return rep.Finish()
+}
+
+func runC10(rep *engines.Report, p *pool.Pool, tier string) int {
+	rep.Level = "fault_enumeration"
+	specs := []engines.E3Spec{{Name: "F/none/rs20", Cfg: cfgNone, Alphabet: engines.FaultAlphabet(false), Depth: 3}}
+	budget := 4 * time.Minute
+	if tier != "quick" {
+		specs = []engines.E3Spec{
+			{Name: "F-full/none/rs20", Cfg: cfgNone, Alphabet: engines.FaultAlphabet(true), Depth: 3},
+			{Name: "F/gzip+age+minisign/rs1/wc=file", Cfg: rig.Config{RecordSize: 1, Compression: "gzip", Encryption: "age", Signature: "minisign", WriteCache: "file"}, Alphabet: engines.FaultAlphabet(false), Depth: 2},
+		}
+		budget = 25 * time.Minute
+	}
+	deadline := time.Now().Add(budget)
+	evals, fired := 0, 0
+	distinct := map[string]bool{}
+	exhaustive := true
+	per := []map[string]interface{}{}
+	for _, sp := range specs {
+		t0 := time.Now()
+		st := engines.ExploreE3(p, sp, rep, deadline)
+		if len(st.Harness) > 0 {
+			fmt.Fprintf(os.Stderr, "HARNESS ERROR in %s: %v\n", sp.Name, st.Harness[0])
+			return 2
+		}
+		evals += st.DryRuns + st.Faulted
+		fired += st.Fired
+		for k := range st.Distinct {
+			distinct[k] = true
+		}
+		exhaustive = exhaustive && st.Exhaustive
+		per = append(per, map[string]interface{}{"name": sp.Name, "config": sp.Cfg.String(), "alphabet": len(sp.Alphabet), "history_length": sp.Depth, "prefix_states": st.Prefixes,
+			"fault_free_runs": st.DryRuns, "faulted_runs": st.Faulted, "faults_fired": st.Fired, "wall_s": time.Since(t0).Seconds()})
+		fmt.Fprintf(os.Stderr, "[C10] %s: prefixes=%d dry=%d faulted=%d fired=%d exhaustive=%v %.1fs\n", sp.Name, st.Prefixes, st.DryRuns, st.Faulted, st.Fired, st.Exhaustive, time.Since(t0).Seconds())
+	}
+	rep.Coverage["evaluations"] = evals
+	rep.Coverage["distinct_nontrivial"] = len(distinct)
+	rep.Coverage["faults_fired"] = fired
+	rep.Coverage["exhaustive"] = exhaustive
+	rep.Coverage["explorations"] = per
+	rep.Coverage["rule"] = "for every state-merged history h (|h| < bound) and every call c of the alphabet: one fault-free run of h.c counting the events c reaches at each seam (drive write/read/seek, open/close of the drive, every index-store method, write-cache calls), then one run per (seam, k <= count) with the k-th event failing (drive writes also as short writes; drive opens fail for real), followed by a probe (Mkdir+Stat+Create/Write/Close). distinct_nontrivial = distinct (call kind, seam, mode) whose fault actually fired. Hangs are decided by the cooperative scheduler (no enabled thread), not by timeouts."
+	rep.Assumptions = []string{"tape = regular file", "single fault per run", "SQLite trusted; index-store faults are opaque errors injected at the MetadataPersister interface"}
+	return rep.Finish()
+}
+
+// histories whose final tapes are cut: hand-built long ones + every state of a small breadth-first exploration
+func cutHistories(p *pool.Pool, depth int) ([][]ops.Op, error) {
+	silent := &engines.Report{Prop: "none", Findings: map[string]*engines.Finding{}, Coverage: map[string]interface{}{}}
+	e1 := engines.ExploreE1(p, engines.E1Spec{Name: "cut-histories", Cfg: cfgNone, Alphabet: engines.SmallA(), Depth: depth}, silent, time.Time{})
+	if len(e1.Harness) > 0 {
+		return nil, fmt.Errorf("%s", e1.Harness[0])
+	}
+	return append(engines.LongHistories(), e1.Reps...), nil
+}
+
+func runE2(rep *engines.Report, p *pool.Pool, prop, tier string) int {
+	rep.Level = "fault_enumeration"
+	depth := 1
+	if tier != "quick" {
+		depth = 2
+	}
+	hists, err := cutHistories(p, depth)
+	if err != nil {
+		fmt.Fprintln(os.Stderr, "HARNESS ERROR:", err)
+		return 2
+	}
+	policy, shards := "quick", 2
+	budget := 4 * time.Minute
+	if tier != "quick" {
+		policy, shards = "all", 48
+		budget = 25 * time.Minute
+	}
+	specs := []engines.E2Spec{
+		{Name: "afero/none/rs20", Prop: prop, Cfg: cfgNone, Hists: hists, Policy: policy, NShards: shards},
+		{Name: "archive/none/rs3", Prop: prop, Cfg: rig.Config{RecordSize: 3}, Level: "raw", Hists: engines.ArchiveHistories(), Policy: policy, NShards: shards},
+	}
+	if tier != "quick" {
+		specs = append(specs, engines.E2Spec{Name: "long/none/rs1", Prop: prop, Cfg: rig.Config{RecordSize: 1}, Hists: engines.LongHistories(), Policy: policy, NShards: shards})
+	}
+	if prop == "C16" {
+		for i := range specs {
+			specs[i].Indexes = []string{"absent", "current", "stale"}
+			if tier != "quick" {
+				specs[i].Policy = "quick" // every byte x three index variants is out of budget; cut classes stay the same
+				specs[i].NShards = 4
+			}
+		}
+	}
+	deadline := time.Now().Add(budget)
+	evals := 0
+	distinct := map[string]bool{}
+	exhaustive := true
+	per := []map[string]interface{}{}
+	for _, sp := range specs {
+		t0 := time.Now()
+		st := engines.ExploreE2(p, sp, rep, deadline)
+		if len(st.Harness) > 0 {
+			fmt.Fprintf(os.Stderr, "HARNESS ERROR in %s: %v\n", sp.Name, st.Harness[0])
+			return 2
+		}
+		evals += st.Evals
+		for d := range st.Distinct {
+			distinct[sp.Name+"|"+d] = true
+		}
+		exhaustive = exhaustive && st.Exhaustive
+		per = append(per, map[string]interface{}{"name": sp.Name, "config": sp.Cfg.String(), "histories": len(sp.Hists), "tapes": st.Tapes, "distinct_tape_shapes": st.Shapes, "cut_policy": sp.Policy, "cuts_judged": st.Evals, "wall_s": time.Since(t0).Seconds()})
+		fmt.Fprintf(os.Stderr, "[%s] %s: tapes=%d shapes=%d cuts=%d distinct=%d exhaustive=%v %.1fs\n", prop, sp.Name, st.Tapes, st.Shapes, st.Evals, len(st.Distinct), st.Exhaustive, time.Since(t0).Seconds())
+	}
+	rep.Coverage["evaluations"] = evals
+	rep.Coverage["distinct_nontrivial"] = len(distinct)
+	rep.Coverage["exhaustive"] = exhaustive
+	rep.Coverage["explorations"] = per
+	rep.Coverage["rule"] = "tapes = final tapes of the listed histories (deduplicated by record shape), produced by the real write path; cut policy 'all' = every prefix length 0..|T| (byte granular), 'quick' = every 512-byte boundary, every boundary between two drive writes +-1 byte, every 7th byte of the last two records; each cut is rebuilt (C06) or opened with Initialize under each index variant (C16) on a fresh real stack. distinct_nontrivial = distinct (tape shape, torn record kind, part of the record hit, alignment)."
+	rep.Assumptions = []string{"tape = regular file; a crash leaves a prefix of the bytes written (append-only log, no reordering of earlier blocks)", "config none (names must be readable to identify the torn entry)"}
 	return rep.Finish()
 }
